@@ -10,7 +10,7 @@ TECHNIQUE = 'lock-mode by receiver expressions at every mutator/reader call site
 EXPLANATION = ('Decides on the MIR of the current tree: every method that mutates a Partition or Segment takes &mut self and each production call site reaches it through the partition write guard, polls hold the '
                'read guard across the whole read; the log size that bounds readers is advanced only after the batch write (including its flush) succeeded, in the waiting writer and in the background persister, '
                'and the index size likewise; messages leave the unsaved buffer only on the path that hands them to the writer; the message cache is a queue (in at the back, out at the front or all at once) and '
-               'eviction runs under the partition write guard; the range comparisons that select segments and cache hits keep their confirmed forms. Not decided: linearizability of histories; NoWait visibility races.')
+               'eviction runs under the partition write guard; the range comparisons that select segments and cache hits keep their confirmed forms. Also: the split of a poll between the persisted part of the open segment and its unsaved buffer keeps its confirmed comparisons, and in every confirmation mode the batch taken out of the unsaved buffer must be covered by the published log size when the save returns (the NoWait arm is a known finding, F21). Not decided: linearizability of histories; NoWait visibility races.')
 ASSUMPTIONS = ['tokio RwLock semantics', 'forms in props/read_forms.py']
 
 P = sf.PART
